@@ -10,6 +10,7 @@ import (
 // C14 step: EndBlocker at height h from an arbitrary end-of-block-ready validator state, with one registered
 // executor-change plan at height hp (operator and key may be new or already known; any executor list).
 func Harness_C14_PlanAtEndBlock() {
+	keeper.VerifConfig("unwind", 16) // the reference applier's nested loops over 3 stored validators plus the plan (thorough)
 	k, ctx := keeper.VerifSetupC13()
 	keeper.VerifAssume(keeper.VerifInvValidators(ctx, k))
 	ghost, gok := keeper.VerifGhostOf(ctx, k)
